@@ -19,6 +19,7 @@ From RU Require Import Proofs.C02_SetHostFrame Proofs.C02_SetHostCanon Proofs.C0
 From RU Require Import Proofs.C02_Stmt4 Proofs.C02_QHost Proofs.C02_SetHostNone Proofs.C02_SetPathNoAuth Proofs.C02_SetPathOpaque Proofs.C02_Reach5.
 From RU Require Import Proofs.C02_JoinAbs Proofs.C02_JoinPath Proofs.C02_Segments Proofs.C02_SegmentsCanon Proofs.C02_Reach6.
 From RU Require Import Proofs.C02_Ovr Proofs.C02_Reach7.
+From RU Require Import Proofs.C02_File Proofs.C02_FileL1 Proofs.C02_FileCanon.
 Open Scope string_scope.
 Open Scope N_scope.
 Open Scope list_scope.
@@ -1476,6 +1477,101 @@ Example C02_reach_partial6_filebase :
   /\ match parse_url true mhp host_parse_opaque host_display None None (B "file:///a/b") with
      | POk bu => is_file bu && abs_ref bu (B "https:\\x/y z") && negb (Known_file_drive bu) | _ => false end = true.
 Proof. exact reach6_example_filebase. Qed.
+
+(* ---------- P. the file class (v): a fifth canonical form, L3 for it, and the invariant of the file path state ---------- *)
+(* Canonical file record (C02_File.file_ok; outside Known_file_drive):  "file://" [host] path ["?" q] ["#" f]  with no
+   host or a host other than "localhost" whose display is a host text, is no drive letter and parses back to it; path
+   segments canonical for a special scheme (good_seg_sp) that do not begin like a drive letter (wdl_like, the test of
+   Known_file_drive), the first of several segments not empty; query clean for the special query set, fragment clean.
+   P.1  the file path loop pushes canonical text unchanged - no drive-letter arm fires - up to the collapse of the
+   leading slashes *)
+Theorem C02_file_path_loop_canon : forall dbg pre segs done last rest hh,
+  forallb fseg_ok segs = true -> fseg_ok last = true ->
+  match rest with [] => True | c :: _ => is_qh c = true /\ is_tnl c = false end ->
+  parse_path_loop dbg CUrlParser STFile (nlen pre) (segs_text segs ++ last ++ rest) (Bs pre done) (nlen (Bs pre done)) [] hh
+  = POk (file_path_fixup STFile (nlen pre) (Bs pre (done ++ segs) ++ last), hh, rest).
+Proof. exact file_loop_canon. Qed.
+Print Assumptions C02_file_path_loop_canon.
+
+(* P.2  L3 for the class: parsing the serialization of a canonical file record gives the record back (both entries of
+   the file host state: with a host through parse_path_start, without through the extra slash and the collapse) *)
+Theorem C02_L3_file : forall dbg hp hpo hd ho segs last q f, file_ok hp hd ho segs last q f ->
+  parse_url dbg hp hpo hd None None (file_ser hd ho (path_text segs last) q f)
+  = POk (file_curl hd ho (path_text segs last) q f).
+Proof. exact reparse_file_form. Qed.
+Check C02_L3_file : forall dbg hp hpo hd ho segs last q f, file_ok hp hd ho segs last q f ->
+  parse_url dbg hp hpo hd None None (file_ser hd ho (path_text segs last) q f)
+  = POk (file_curl hd ho (path_text segs last) q f).
+Print Assumptions C02_L3_file.
+
+(* P.3  the fifth form as a predicate on records: every FileCanon record is a fixpoint of re-parsing, well-formed, ASCII.
+   NOT yet connected to histories: that a parse / join RESULT with the file scheme outside Known_file_drive is FileCanon
+   (L1 for parse_file) is not proved; P.4-P.6 are its path half. *)
+Theorem C02_FileCanon_fixpoint : forall dbg hp hpo hd, HostRT hp hpo hd -> forall u, FileCanon hp hd u ->
+  Fixpoint_of_reparse dbg hp hpo hd u /\ wf_b u = true /\ ascii (ser u).
+Proof. exact FileCanon_fixpoint. Qed.
+Check C02_FileCanon_fixpoint : forall dbg hp hpo hd, HostRT hp hpo hd -> forall u, FileCanon hp hd u ->
+  parse_url dbg hp hpo hd None None (utf8_lossy (ser u)) = POk u /\ wf_b u = true /\ ascii (ser u).
+Print Assumptions C02_FileCanon_fixpoint.
+
+Example C02_file_ok_inhabited :
+  file_ok ex_hp ex_hd (Some (HDomain (B "h.example"))) [B "a"] (B "b%20c") (Some (B "q")) (Some (B "f"))
+  /\ file_ok ex_hp ex_hd None [] (B "x") None None
+  /\ list_eqb (ser (file_curl ex_hd (Some (HDomain (B "h.example"))) (path_text [B "a"] (B "b%20c")) (Some (B "q")) (Some (B "f"))))
+              (B "file://h.example/a/b%20c?q#f") = true
+  /\ list_eqb (ser (file_curl ex_hd None (path_text [] (B "x")) None None)) (B "file:///x") = true.
+Proof. exact file_ok_example. Qed.
+
+(* P.4  L1, one end of a segment: for ANY segment text (clean for the path set, no separator) finish_segment for the
+   file scheme - dot segments with both drive-letter refusals of pop_path / last_slash_can_be_removed, the
+   normalisation of a drive-letter first segment (which clears the host flag) - keeps the shape
+   pre "/" seg "/" ... "/" last  with canonical closed segments *)
+Theorem C02_file_finish_segment : forall pre dbg segs cur (ews : bool) hh,
+  forallb good_seg_sp segs = true -> clean T_PATH cur = true -> no_slash cur = true -> no_byte 92 cur = true ->
+  exists segs' last' hh',
+    finish_segment dbg STFile (nlen pre) (Bs pre segs ++ cur ++ (if ews then [47] else [])) (nlen (Bs pre segs)) ews hh
+    = POk (Bs pre segs' ++ last', hh')
+    /\ forallb good_seg_sp segs' = true /\ good_seg_sp last' = true /\ (ews = true -> last' = [])
+    /\ (hh' = hh \/ hh' = false).
+Proof. exact finish_inv_f. Qed.
+Print Assumptions C02_file_finish_segment.
+
+(* P.5  the persistence lemma: once the path begins with a normalised drive letter followed by '/' (D pre a ser:
+   ser = pre "/" a ":" "/" ...) it does so after the whole loop, whatever the input (pop_path never pops it; the segment
+   start may be the stale one left by the arm that inserts '/' after "C:") *)
+Theorem C02_file_drive_persists : forall pre dbg a, is_alpha a = true -> forall l ser ss pend hh s' hh' rem,
+  usv_list l -> usv_list pend -> D pre a ser -> (ss = nlen pre + 2 \/ nlen pre + 4 <= ss) ->
+  parse_path_loop dbg CUrlParser STFile (nlen pre) l ser ss pend hh = POk (s', hh', rem) ->
+  D pre a s' /\ hh' = hh /\ rem = cbb_rest l.
+Proof. exact loop_drive. Qed.
+Print Assumptions C02_file_drive_persists.
+
+(* P.6  L1 for the file path state: from ANY input (scalar values) the loop, started on canonical closed segments,
+   returns the collapse of a canonical path - host flag kept or cleared - or a path that begins with a normalised drive
+   letter and '/' (the arm that inserts '/' after "C:" fired, F-C01-7; such a result is in Known_file_drive) *)
+Theorem C02_file_path_loop_inv : forall pre dbg l segs cur pend hh s' hh' rem, usv_list l -> pend_ok_sp pend ->
+  forallb good_seg_sp segs = true -> clean T_PATH cur = true -> no_slash cur = true -> no_byte 92 cur = true ->
+  (is_normalized_wdl (segs_text segs ++ cur) = true -> pend = []) ->
+  parse_path_loop dbg CUrlParser STFile (nlen pre) l (Bs pre segs ++ cur) (nlen (Bs pre segs)) pend hh = POk (s', hh', rem) ->
+  rem = cbb_rest l /\ (good_out pre hh s' hh' \/ drive_out pre s').
+Proof. exact loop_inv_f. Qed.
+Check C02_file_path_loop_inv : forall pre dbg l segs cur pend hh s' hh' rem, usv_list l -> pend_ok_sp pend ->
+  forallb good_seg_sp segs = true -> clean T_PATH cur = true -> no_slash cur = true -> no_byte 92 cur = true ->
+  (is_normalized_wdl (segs_text segs ++ cur) = true -> pend = []) ->
+  parse_path_loop dbg CUrlParser STFile (nlen pre) l (Bs pre segs ++ cur) (nlen (Bs pre segs)) pend hh = POk (s', hh', rem) ->
+  rem = cbb_rest l
+  /\ ((exists segs' last', s' = file_path_fixup STFile (nlen pre) (Bs pre segs' ++ last')
+         /\ forallb good_seg_sp segs' = true /\ good_seg_sp last' = true /\ (hh' = hh \/ hh' = false))
+      \/ (exists a, is_alpha a = true /\ exists X, s' = (pre ++ [47; a; 58; 47]) ++ X)).
+Print Assumptions C02_file_path_loop_inv.
+
+(* the hypotheses are met by the start of every file parse (no closed segment, nothing pending), and both drive-letter
+   arms are real: "C|" is rewritten and clears the host flag; a tab after "c:" makes the loop insert '/' *)
+Example C02_file_path_loop_inhabited :
+  parse_path_loop true CUrlParser STFile 7 (B "C|/x") (B "file:///") 8 [] true = POk (B "file:///C:/x", false, [])
+  /\ parse_path_loop true CUrlParser STFile 7 (9 :: B "x") (B "file:///c:") 8 [] false = POk (B "file:///c:/x", false, [])
+  /\ parse_path_loop true CUrlParser STFile 7 (B "a/../C:/../b") (B "file:///") 8 [] false = POk (B "file:///C:/b", false, []).
+Proof. exact file_loop_drive_arms. Qed.
 
 (* ---------- F. every excluded class contains a history that is not a fixpoint ---------- *)
 Theorem C02_F_C03_5_refuted :
